@@ -43,23 +43,23 @@ func baseName(n string) string {
 }
 
 type replayFile struct {
-	Property     string   `json:"property"`
-	Obligation   string   `json:"obligation"`
-	Kind         string   `json:"kind"`
-	Class        string   `json:"class"` // counterexample | cti-not-reproduced | unknown | binding
-	Function     string   `json:"function"`
-	Position     string   `json:"position"`
-	Clause       string   `json:"clause"`
-	Solver       string   `json:"solver"`
-	SolverResult string   `json:"solver_result"`
-	AllResults   []string `json:"all_solver_results"`
-	SolverOutput string   `json:"solver_output"`
-	SMTFile      string   `json:"smt_file"`
+	Property     string            `json:"property"`
+	Obligation   string            `json:"obligation"`
+	Kind         string            `json:"kind"`
+	Class        string            `json:"class"` // counterexample | cti-not-reproduced | unknown | binding
+	Function     string            `json:"function"`
+	Position     string            `json:"position"`
+	Clause       string            `json:"clause"`
+	Solver       string            `json:"solver"`
+	SolverResult string            `json:"solver_result"`
+	AllResults   []string          `json:"all_solver_results"`
+	SolverOutput string            `json:"solver_output"`
+	SMTFile      string            `json:"smt_file"`
 	Model        map[string]string `json:"model,omitempty"`
-	GoTest       string   `json:"go_test_source,omitempty"`
-	Package      string   `json:"overlay_package,omitempty"`
-	Reproduced   bool     `json:"reproduced"`
-	Observed     string   `json:"observed,omitempty"`
+	GoTest       string            `json:"go_test_source,omitempty"`
+	Package      string            `json:"overlay_package,omitempty"`
+	Reproduced   bool              `json:"reproduced"`
+	Observed     string            `json:"observed,omitempty"`
 }
 
 func (r *Run) writeBuildFailure(err error) string {
@@ -220,24 +220,24 @@ func (r *Run) writeEvidence() error {
 		}
 	}
 	cov := map[string]any{
-		"obligations":  total,
-		"discharged":   discharged,
-		"checker_cmd":  fmt.Sprintf("/verif/bin/gocv verify --property %s --tier %s --repo %s", r.prop.ID, r.tier, r.repo),
-		"trusted_base": trusted,
+		"obligations":              total,
+		"discharged":               discharged,
+		"checker_cmd":              fmt.Sprintf("/verif/bin/gocv verify --property %s --tier %s --repo %s", r.prop.ID, r.tier, r.repo),
+		"trusted_base":             trusted,
 		"functions_under_contract": under,
-		"functions":    r.reports,
-		"obligations_by_kind": byKind,
-		"discharged_by_solver": bySolver,
-		"solver_ms_sum": sumMs,
-		"solver_ms_max": maxMs,
-		"solver_timeout_s": r.timeout,
+		"functions":                r.reports,
+		"obligations_by_kind":      byKind,
+		"discharged_by_solver":     bySolver,
+		"solver_ms_sum":            sumMs,
+		"solver_ms_max":            maxMs,
+		"solver_timeout_s":         r.timeout,
 		"vacuity": map[string]any{"cover_checks": covers, "not_refuted": coversOK, "return_paths_unreachable_under_contracts": r.deadReturns,
 			"rule": "per function: `requires ∧ type facts` must not be unsat, and the path condition of at least one return must not be unsat; return paths that are dead under the callee contracts are listed"},
-		"samples":      samples,
-		"contract_files": files,
+		"samples":                 samples,
+		"contract_files":          files,
 		"known_findings_reported": r.known,
-		"abstractions": notes,
-		"bounded_standins": []string{},
+		"abstractions":            notes,
+		"bounded_standins":        []string{},
 	}
 	ev := map[string]any{
 		"property_id": r.prop.ID,
@@ -257,7 +257,6 @@ func (r *Run) writeEvidence() error {
 	_ = os.MkdirAll(dir, 0o755)
 	return os.WriteFile(filepath.Join(dir, r.prop.ID+".json"), data, 0o644)
 }
-
 
 func cmdReplay(args []string) int {
 	if len(args) < 1 {
